@@ -122,7 +122,7 @@ def clause1(chk):
                 raise MachineryFailure("%s: the definitional ASSUMEs of NetEpiTrees were not evaluated" % r["name"])
             if not c["Shape"] and not r["control"] and tr[0][2] != len(supports):
                 raise MachineryFailure("%s: %d tree supports emitted, the specification counts %d trees" % (r["name"], len(supports), tr[0][2]))
-            chk.part("clause1 tree definition (TLC)", trees_counted=tr[0][2], n=n)
+            chk.part("clause1 tree definition checked by TLC on all graphs with N=%d (3 characterisations agree, Cayley count)" % n, trees_counted=tr[0][2])
         K.SG[r["name"]] = sg
         r["supports"] = len(supports)
         for key in sorted(sg.trans):
@@ -285,11 +285,13 @@ def clause2(chk):
 # =================================================================================================
 # clauses 3 and 4: shared set-up
 # =================================================================================================
-def _survival_table(chk):
+def _survival_table(chk, emitted=None):
     """one-node chains I -> R (SIR) and I -> S (SIS), tau = 0, every node weight and recovery numerator"""
-    for sis in (False, True):
-        c = netepi.netepi_constants(1, {1}, {1, 2}, {0}, {1, 2}, sis)
-        sg, res = O.emit_netepi(c)
+    for i, sis in enumerate((False, True)):
+        if emitted is None:
+            sg, res = O.emit_netepi(netepi.netepi_constants(1, {1}, {1, 2}, {0}, {1, 2}, sis))
+        else:
+            sg, res = emitted[i]
         chk.add_tlc("NetEpi one-node chain (%s) emission" % ("SIS" if sis else "SIR"), res)
         _need(res, "Recover", "one-node chain")
         for key in sg.trans:
@@ -326,7 +328,6 @@ def _factorisation(chk, sg, n, sis):
     """dump against dump: the full tau=0 chain's E[I](t), E[S](t) equal the sum of one-node survival functions"""
     worst = 0.0
     cnt = 0
-    import itertools
     for key in sorted(sg.trans):
         gen = O.Generator(sg, key)
         for st0 in sg.trans[key]:
@@ -342,13 +343,22 @@ def _factorisation(chk, sg, n, sis):
 
 def clause3(chk):
     tier = chk.tier
-    # -- specification level --------------------------------------------------------------------
-    for sis in (False, True):
-        c = netepi.netepi_constants(3, {1, 2}, {1, 2}, {0}, {1, 2}, sis)
-        cfg = tlc.cfg_text(c, view="View", invariants=["TypeOK", "NoTransmitEnabled"],
-                           properties=["OnlyRecover", "SusceptiblesUntouched", "InfectedOnlyLeave"])
-        res = tlc.run_tlc("NetEpiLimits", cfg, workers=8, coverage=True)
-        chk.add_tlc("NetEpiLimits tau=0 (%s) %r" % ("SIS" if sis else "SIR", _cset(c)), res)
+    # -- specification level (all TLC runs of the clause are started together) -----------------------
+    from functools import partial
+    W = {1, 2}
+    lim_domains = [netepi.netepi_constants(3, W, W, {0}, {1, 2}, sis) for sis in (False, True)]
+    if tier != "quick":
+        lim_domains += [netepi.netepi_constants(4, W, {1}, {0}, {1, 2}, sis) for sis in (False, True)]
+    lim_cfg = lambda c: tlc.cfg_text(c, view="View", invariants=["TypeOK", "NoTransmitEnabled"],
+                                     properties=["OnlyRecover", "SusceptiblesUntouched", "InfectedOnlyLeave"])
+    jobs = [(partial(tlc.run_tlc, "NetEpiLimits", lim_cfg(c), workers=4, coverage=True), ()) for c in lim_domains]
+    one = [netepi.netepi_constants(1, {1}, {1, 2}, {0}, {1, 2}, sis) for sis in (False, True)]
+    em3 = [netepi.netepi_constants(3, W, W, {0}, {1, 2}, sis) for sis in (False, True)]
+    em4 = netepi.netepi_constants(4, {1}, {1}, {0}, {1, 2}, False)
+    jobs += [(O.emit_netepi, (c,)) for c in one + em3 + [em4]]
+    done = O.run_parallel(jobs, threads=8)
+    for c, res in zip(lim_domains, done[:len(lim_domains)]):
+        chk.add_tlc("NetEpiLimits tau=0 (%s) %r" % ("SIS" if c["SIS"] else "SIR", _cset(c)), res)
         if res.violation:
             chk.violation("spec|NetEpiLimits tau=0|" + res.violation[:60], "TLC: " + res.violation, {"clause": 3, "constants": _cset(c)})
         _need(res, "Recover", "NetEpiLimits tau=0")
@@ -357,15 +367,14 @@ def clause3(chk):
     c = netepi.netepi_constants(2, {1}, {1}, {1}, {1}, False)
     _expect_violation(chk, "NetEpiLimits NoTransmitEnabled with tau>0", "NetEpiLimits",
                       tlc.cfg_text(c, view="View", invariants=["NoTransmitEnabled"]))
-    _survival_table(chk)
+    rest = done[len(lim_domains):]
+    _survival_table(chk, rest[:2])
     emitted = {}
-    for sis in (False, True):
-        sg, res = O.emit_netepi(netepi.netepi_constants(3, {1, 2}, {1, 2}, {0}, {1, 2}, sis))
+    for sis, (sg, res) in zip((False, True), rest[2:4]):
         chk.add_tlc("NetEpi tau=0 emission N=3 weighted (%s)" % ("SIS" if sis else "SIR"), res)
         _factorisation(chk, sg, 3, sis)
         emitted[sis] = sg
-    n_big = 4
-    sg4, res = O.emit_netepi(netepi.netepi_constants(n_big, {1}, {1}, {0}, {1, 2}, False))
+    sg4, res = rest[4]
     chk.add_tlc("NetEpi tau=0 emission N=4 unit weights (SIR)", res)
     _factorisation(chk, sg4, 4, False)
     # -- the code ---------------------------------------------------------------------------------
@@ -374,7 +383,11 @@ def clause3(chk):
     bases = K.spy_bases(table)
     chk.part("clause3 entry-point table", entry_points=len(table), graph_taking=len(gtable), numeric_ic=len(bases))
     tasks = []
-    doms = [(3, emitted[False], _graph_keys(emitted[False], 3, tier, False, False)),
+    keys3 = _graph_keys(emitted[False], 3, tier, False, False)
+    if tier == "quick":      # the unit-weight graphs and every second weighted one
+        unit = [k for k in keys3 if all(x in (0, 1) for x in k[0]) and all(x == 1 for x in k[1])]
+        keys3 = unit + [k for k in keys3 if k not in unit][::2]
+    doms = [(3, emitted[False], keys3),
             (4, sg4, _graph_keys(sg4, 4, tier, True, tier == "quick"))]
     for n, sg, keys in doms:
         for key in keys:
@@ -520,23 +533,34 @@ def clause3(chk):
 # =================================================================================================
 def clause4(chk):
     tier = chk.tier
-    c = netepi.netepi_constants(3, {1, 2}, {1, 2}, {1, 2}, {0}, True)
-    cfg = tlc.cfg_text(c, spec="SpecBoth", view="View", invariants=["SameEnabled", "NoRecovered", "NoRecoverEnabled"], properties=["SameSteps"])
-    res = tlc.run_tlc("NetEpiLimits", cfg, workers=8, coverage=True)
-    res.coverage.update(_instance_coverage(res))
-    chk.add_tlc("NetEpiLimits gam=0: SIS and SIR instances take the same steps %r" % _cset(c), res)
-    if res.violation:
-        chk.violation("spec|NetEpiLimits gam=0|" + res.violation[:60], "TLC: " + res.violation, {"clause": 4, "constants": _cset(c)})
-    _need(res, "AsSIS!Next", "NetEpiLimits gam=0")
+    from functools import partial
+    W = {1, 2}
+    both = [netepi.netepi_constants(3, W, W, {1, 2}, {0}, True)]
+    if tier != "quick":
+        both.append(netepi.netepi_constants(4, W, {1}, {1, 2}, {0}, True))
+    bcfg = lambda c: tlc.cfg_text(c, spec="SpecBoth", view="View", invariants=["SameEnabled", "NoRecovered", "NoRecoverEnabled"], properties=["SameSteps"])
+    jobs = [(partial(tlc.run_tlc, "NetEpiLimits", bcfg(c), workers=4, coverage=True), ()) for c in both]
+    edoms = [(3, W, W), (4, {1}, {1})]
+    for n, ew, nw in edoms:
+        for sis in (True, False):
+            jobs.append((O.emit_netepi, (netepi.netepi_constants(n, ew, nw, {1, 2}, {0}, sis),)))
+    done = O.run_parallel(jobs, threads=8)
+    for c, res in zip(both, done[:len(both)]):
+        res.coverage.update(_instance_coverage(res))
+        chk.add_tlc("NetEpiLimits gam=0: SIS and SIR instances take the same steps %r" % _cset(c), res)
+        if res.violation:
+            chk.violation("spec|NetEpiLimits gam=0|" + res.violation[:60], "TLC: " + res.violation, {"clause": 4, "constants": _cset(c)})
+        _need(res, "AsSIS!Next", "NetEpiLimits gam=0")
     c2 = netepi.netepi_constants(2, {1}, {1}, {1}, {1}, True)
     _expect_violation(chk, "NetEpiLimits SameSteps with gam>0", "NetEpiLimits",
                       tlc.cfg_text(c2, spec="SpecBoth", view="View", properties=["SameSteps"]))
     # the emitted graphs of the two instances coincide on the R-free states
     doms = []
-    for n, ew, nw in ((3, {1, 2}, {1, 2}), (4, {1}, {1})):
+    rest = done[len(both):]
+    for i, (n, ew, nw) in enumerate(edoms):
         sgs = {}
-        for sis in (True, False):
-            sg, res = O.emit_netepi(netepi.netepi_constants(n, ew, nw, {1, 2}, {0}, sis))
+        for j, sis in enumerate((True, False)):
+            sg, res = rest[2 * i + j]
             chk.add_tlc("NetEpi gam=0 emission N=%d (%s)" % (n, "SIS" if sis else "SIR"), res)
             _need(res, "Transmit", "gam=0 emission")
             sgs[sis] = sg
@@ -547,7 +571,11 @@ def clause4(chk):
         if a != b:
             chk.violation("spec|NetEpi gam=0: emitted SIS and SIR graphs differ|N=%d" % n, "emitted transition graphs differ", {"clause": 4, "n": n})
         chk.part("clause4 emitted graphs equal (gam=0)", keys=len(a), transitions=sum(len(l) for d in a.values() for l in d.values()))
-        doms.append((n, sgs[True], _graph_keys(sgs[True], n, tier, n == 4, n == 4 and tier == "quick")))
+        keys = _graph_keys(sgs[True], n, tier, n == 4, n == 4 and tier == "quick")
+        if n == 3 and tier == "quick":
+            unit = [k for k in keys if all(x in (0, 1) for x in k[0]) and all(x == 1 for x in k[1])]
+            keys = unit + [k for k in keys if k not in unit][::2]
+        doms.append((n, sgs[True], keys))
     table = K.ode_table()
     fams = K.families(table)
     chk.part("clause4 families", families=len(fams))
@@ -619,6 +647,7 @@ def clause5(chk):
     outs = pool_map(K.c5_task, scen)
     stats = {}
     slow = 0
+    reduced = 0
     for d, o in zip(scen, outs):
         chk.cov["evaluations"] += 1
         if "machinery" in o:
@@ -644,8 +673,7 @@ def clause5(chk):
         if abs(o["ar_default"] - o["ar"]) > K.TOL_FINAL:
             slow += 1
         if "its_reduced" in o:
-            chk.note("clause 5: %s raised %s (theta underflows and the k=0 term of psihatPrime overflows); verdict taken with number_its=%d"
-                     % (e, o["its_reduced"], o["its"]))
+            reduced += 1
         dev = abs(o["ar"] - o["limit"])
         if o["limit"] > 1e-3:
             chk.cov["distinct_nontrivial"] += 1
@@ -657,6 +685,10 @@ def clause5(chk):
             s["worst"] = max(s["worst"], dev)
     for (e, kind), s in sorted(stats.items()):
         chk.part("clause5 %s [%s]" % (e, kind), scenarios=s["n"], failing=s["bad"], undecided=s["skipped"], worst_passing_deviation=s["worst"])
+    if reduced:
+        chk.note("clause 5: in %d scenario(s) with a degree-0 class Attack_rate_discrete raised OverflowError at number_its=%d (theta underflows and the "
+                 "k=0 term k*Pk[k]*theta**(k-1) of its psihatPrime overflows); the verdict uses the largest number_its/4^j that returns (robustness remark, not a C08 matter)"
+                 % (reduced, K.ITS))
     if slow:
         chk.note("clause 5: in %d scenarios the default number_its=100 had not converged to 1e-6 (verdicts use number_its=%d)" % (slow, K.ITS))
     d0, o0 = next(((d, o) for d, o in zip(scen, outs) if o.get("limit") and o["limit"] > 0.1), (scen[0], outs[0]))
